@@ -61,6 +61,11 @@ RECIPES = [
      "                    v[rb, pvnz] = (-1j / freqw[pvnz]) * a_rb[:, pvnz]", "revert F15 (v)"),
     ("C02", "neutral", [], "pyyeti/ode/freqdirect.py", "H = (1j * b)[:, None] @ Omega + k[:, None] - m[:, None] @ Omega**2",
      "H = k[:, None] - m[:, None] @ Omega**2 + (1j * b)[:, None] @ Omega", "reordered sum"),
+    ("C02", "break", ["C02-R7"], "pyyeti/ode/_utilities.py", "    for i in range(rpsd):\n        # solve for unit frequency response function for i'th force:\n",
+     "    for i in range(rpsd):\n        if not t_frc[:, i].any():\n            continue\n        # solve for unit frequency response function for i'th force:\n", "forces that load no equation are skipped (their direct term is lost)"),
+    ("C02", "neutral", [], "pyyeti/ode/_utilities.py", "    for i in range(rpsd):\n        # solve for unit frequency response function for i'th force:\n",
+     "    for i in range(rpsd):\n        if not forcepsd[i].any():\n            continue\n        # solve for unit frequency response function for i'th force:\n", "forces with a vanishing PSD are skipped"),
+    ("C02", "break", ["C02-R8"], "pyyeti/ode/freqdirect.py", "                d[kdof, i] = la.solve(Hi, force[:, i])", "                d[kdof, i] = la.solve(Hi, force[:, i], assume_a=('sym' if (self.k == self.k.T).all() else 'gen'))", "symmetric driver justified by k only"),
     # ---- C03
     ("C03", "break", ["C03-R1"], "pyyeti/srs.py", "        beta2 = (E2 + Sz - C) / f", "        beta2 = (E2 - Sz - C) / f", "relvelo beta2"),
     ("C03", "break", ["C03-R1"], "pyyeti/srs.py", "        beta1 = 2 * (Sb - C)\n        beta2 = E2 - Sb", "        beta1 = 2 * (Sb + C)\n        beta2 = E2 - Sb", "absacce beta1"),
@@ -71,6 +76,11 @@ RECIPES = [
     ("C03", "break", ["C03-R6"], "pyyeti/srs.py", "            t = ((1 + p2z2) / ((1 - p**2) ** 2 + p2z2)) * psdfull.T", "            t = ((1 + p2z2) / ((1 - p**2) ** 2 - p2z2)) * psdfull.T", "vrs transmissibility"),
     ("C03", "neutral", [], "pyyeti/srs.py", "        f = dT * wn * wn * wn\n        q = (2 * zeta * zeta - 1) / sqz\n        beta0 = ((1 - C) / Q - q * S - wn * dT) / f",
      "        f = wn**3 * dT\n        q = (2 * zeta**2 - 1) / sqz\n        beta0 = (-q * S + (1 - C) / Q - wn * dT) / f", "powers / order rewritten"),
+    ("C03", "break", ["C03-R8"], "pyyeti/srs.py", "    return np.sqrt((resp**2).mean(axis=0))", "    return np.sqrt((resp**2).sum(axis=0) / resp.size)", "rms divided by the total number of elements"),
+    ("C03", "break", ["C03-R8"], "pyyeti/srs.py", "def _negmeth(resp):\n    return abs(resp.min(axis=0))", "def _negmeth(resp):\n    return abs(resp).min(axis=0)", "neg = |min x|, not min |x|"),
+    ("C03", "break", ["C03-R8"], "pyyeti/srs.py", '        "pos": _posmeth,\n        "neg": _negmeth,', '        "pos": _negmeth,\n        "neg": _posmeth,', "peak table entries swapped"),
+    ("C03", "neutral", [], "pyyeti/srs.py", "    return np.sqrt((resp**2).mean(axis=0))", "    sq = resp * resp\n    return np.sqrt(np.sum(sq, axis=0) / resp.shape[0])", "rms as sum / number of samples"),
+    ("C03", "neutral", [], "pyyeti/srs.py", "def _absmeth(resp):\n    return abs(resp).max(axis=0)", "def _absmeth(resp):\n    return np.amax(abs(resp), axis=0)", "function form of the reduction"),
     # ---- C04
     ("C04", "break", ["C04-R3"], "pyyeti/nastran/op4.py", '            f.write(f"{c + 1:8}{s + 1:8}{elems:8}\\n")', '            f.write(f"{c + 1:8}{s:8}{elems:8}\\n")', "dense column header first row"),
     ("C04", "break", ["C04-R3"], "pyyeti/nastran/op4.py", "            nwords = 2 * ind.shape[0] + 2 * sum(ind[:, 1]) * multiplier\n            reclen",
@@ -79,6 +89,9 @@ RECIPES = [
     ("C04", "break", ["C04-R2"], "pyyeti/nastran/op4.py", "                f_slice = slice(32, 40)\n                t_slice = slice(40, 48)", "                f_slice = slice(32, 40)\n                t_slice = slice(40, 46)", "I16 header slice"),
     ("C04", "break", ["C04-R4"], "pyyeti/nastran/op4.py", "        bigmat = rows < 0 or rows >= self._rows4bigmat", "        bigmat = rows < 0 or rows > self._rows4bigmat", "skipper bigmat boundary"),
     ("C04", "neutral", [], "pyyeti/nastran/op4.py", "            IS = (r0 + 1) + ((L + 1) << 16)\n            f.write(colTrailer.pack(IS))", "            IS = ((L + 1) << 16) + (r0 + 1)\n            f.write(colTrailer.pack(IS))", "commuted sum"),
+    ("C04", "break", ["C04-R8"], "pyyeti/nastran/op4.py", "            sortu = np.lexsort((ru, cu))", "            sortu = np.lexsort((cu, ru))", "upper triangle sorted in the lower triangle's order"),
+    ("C04", "break", ["C04-R8"], "pyyeti/nastran/op4.py", "                and np.all(rl[sortl] == cu[sortu])", "                and np.all(rl[sortl] == ru[sortu])", "rows compared with rows"),
+    ("C04", "neutral", [], "pyyeti/nastran/op4.py", "            sortl = np.lexsort((cl, rl))\n            sortu = np.lexsort((ru, cu))", "            order_low = np.lexsort((cl, rl))\n            order_upp = np.lexsort((ru, cu))\n            sortl, sortu = order_low, order_upp", "renamed sort vectors"),
     # ---- C05
     ("C05", "break", ["C05-R1", "C05-R3"], "pyyeti/rainflow/py_rain.py", "            if X < Y:\n                break\n            if j == 2:\n                # /* step 5 from [1]: */\n                # /* [count Y as half cycle] */\n                n += 1\n                rf[n, 0] = Y / 2\n                rf[n, 1] = (pts[0] + pts[1]) / 2\n                rf[n, 2] = 0.5\n                pts[0]",
      "            if X <= Y:\n                break\n            if j == 2:\n                # /* step 5 from [1]: */\n                # /* [count Y as half cycle] */\n                n += 1\n                rf[n, 0] = Y / 2\n                rf[n, 1] = (pts[0] + pts[1]) / 2\n                rf[n, 2] = 0.5\n                pts[0]", "tie handling in _rainflow1"),
